@@ -81,14 +81,19 @@ func (self Tee) Peek(sel *node.Selection, consumer interface{}) interface{} {
 
 func (self Tee) BeginEdit(r node.NodeRequest) (err error) {
 	if err = self.A.BeginEdit(r); err == nil {
-		err = self.B.BeginEdit(r)
+		if err = self.B.BeginEdit(r); err != nil {
+			// the edit is off, A has been told it begins and needs to hear it ended
+			self.A.EndEdit(r)
+		}
 	}
 	return
 }
 
 func (self Tee) EndEdit(r node.NodeRequest) (err error) {
-	if err = self.A.EndEdit(r); err == nil {
-		err = self.B.EndEdit(r)
+	// both have been told the edit begins, both hear that it ended
+	err = self.A.EndEdit(r)
+	if errB := self.B.EndEdit(r); err == nil {
+		err = errB
 	}
 	return
 }
